@@ -76,7 +76,7 @@ type c3Start struct {
 }
 
 type c3Op struct {
-	kind  byte // 'T' time passes beyond the validity of what the block-wise layer has stored (no sweep; only while no call is outstanding), 'X' EXCHANGE_LIFETIME elapses (the cached replies expire), 'S' start, 'G' burst of starts, 'B' burst released through the token-table barrier, 'A' empty ack, 'R' response, 'F' foreign-token response, 'C' cancel, 'K' one block of a block-wise (Block2) response, 'W' responses arriving back to back
+	kind  byte // 'N' num calls of the library's token source made elsewhere in the process (c03tk.go), 'T' time passes beyond the validity of what the block-wise layer has stored (no sweep; only while no call is outstanding), 'X' EXCHANGE_LIFETIME elapses (the cached replies expire), 'S' start, 'G' burst of starts, 'B' burst released through the token-table barrier, 'A' empty ack, 'R' response, 'F' foreign-token response, 'C' cancel, 'K' one block of a block-wise (Block2) response, 'W' responses arriving back to back
 	st    []c3Start
 	cid   int
 	rid   int
@@ -142,6 +142,8 @@ func (o c3Op) String() string {
 		return "X"
 	case 'T':
 		return "T"
+	case 'N':
+		return fmt.Sprintf("N%d", o.num)
 	case 'W':
 		parts := make([]string, len(o.sub))
 		for i, x := range o.sub {
@@ -188,6 +190,8 @@ func parseC3Script(txt string) (c3Script, error) {
 		case 'A', 'C':
 			o.cid = atoi(body)
 		case 'X', 'T':
+		case 'N':
+			o.num = atoi(body)
 		case 'R', 'E':
 			q := strings.Split(body, ":")
 			if len(q) != 4 {
@@ -1433,6 +1437,10 @@ func (r *c3Run) run() string {
 			r.doResp(o)
 		case 'W':
 			r.doBurst(o)
+		case 'N':
+			// o.num requests with library-chosen tokens are made elsewhere in the process (other connections share
+			// the token source): the source is asked o.num times. Nothing happens on this connection: no item.
+			c3Burn(o.num)
 		case 'X':
 			if r.dd && !r.bwcase {
 				r.lifetimeElapses()
@@ -1950,6 +1958,15 @@ func runC03(a runArgs) error {
 		}
 		e.Add(txt, sc.String(), nt, hist...)
 	}
+	if strings.HasPrefix(a.only, "tk|") {
+		salt, n, err := parseC3Tk(a.only)
+		if err != nil {
+			return err
+		}
+		txt, _ := runC3Tk(salt, n)
+		e.AddW(txt, c3TkDesc(salt, n), true, 60, "fam-replay")
+		return e.Flush(a.out)
+	}
 	if strings.HasPrefix(a.only, "rc|") {
 		ops, err := parseC3Rc(a.only)
 		if err != nil {
@@ -1972,7 +1989,37 @@ func runC03(a runArgs) error {
 	if a.tier == "thorough" {
 		nPerm, nEq, nBar, nSep = 600, 100, 40, 200
 	}
-	// Round 4 families first, on a stream of their own (c03x.go): state that outlives a request.
+	// Round 5 families first, on a stream of their own (c03tk.go): the library's token source. The source is probed
+	// first (n calls on known random bytes); the scripts come first in the output.
+	rng6 := NewRng(a.seed ^ 0x70CE570CE)
+	nTk, nFreshV := 1100, 4
+	ks := []int{511, 255, 1023, 63, 4095}
+	if a.tier == "thorough" {
+		nTk, nFreshV = 2200, 8
+		ks = append(ks, 0, 1, 3, 7, 15, 31, 127, 2047, 8191, 16383, 2+rng6.Intn(3000), 2+rng6.Intn(3000))
+	}
+	tkSalt := 1 + rng6.U64()%100000
+	tkTxt, tkPeriod := runC3Tk(tkSalt, nTk)
+	tkSalt2 := 1 + rng6.U64()%100000
+	tkTxt2, _ := runC3Tk(tkSalt2, 300)
+	if tkPeriod > 0 {
+		// a token came back after tkPeriod calls: aim the scripts at it
+		ks = []int{tkPeriod - 1, 2*tkPeriod - 1}
+	}
+	for _, tr := range trs {
+		for ki, k := range ks {
+			for v := 0; v < nFreshV; v++ {
+				emit(c3GenFresh(rng6.Fork(), tr, v+4*(ki%2), k), "fresh")
+			}
+		}
+	}
+	tkHist := "token-source-all-tokens-differ"
+	if tkPeriod > 0 {
+		tkHist = fmt.Sprintf("token-source-token-came-back-after-%d-calls", tkPeriod)
+	}
+	e.AddW(tkTxt, c3TkDesc(tkSalt, nTk), true, 60, "fam-source", tkHist)
+	e.AddW(tkTxt2, c3TkDesc(tkSalt2, 300), true, 20, "fam-source")
+	// Round 4 families next, on a stream of their own (c03x.go): state that outlives a request.
 	rng5 := NewRng(a.seed ^ 0x57A1E57A1E)
 	nExp, nEmp, nRc := 2, 3, 40
 	if a.tier == "thorough" {
